@@ -9,6 +9,7 @@ package cluster
 import (
 	"context"
 	"errors"
+	"strings"
 	"time"
 
 	lifecycle "github.com/boz/go-lifecycle"
@@ -264,9 +265,37 @@ func c14native() {
 	verif_LoopReset()
 	e, dm := c14new()
 	done := make(chan struct{})
-	go func() { dm.run(); close(done) }()
 	nupd := 0
 	sawShutdown := false
+	// requests QUEUED on a buffered request channel before the manager reaches its first select,
+	// and a hostname result arriving at that moment, are all there when it first looks (a
+	// goroutine already parked in select would be handed the first of them at once)
+	sched := verif_Schedule()
+	skip := 0
+	for skip+1 < len(sched) && strings.HasPrefix(sched[skip+1], "queued:") {
+		switch k, _, _ := verif_Step(sched[skip]); k {
+		case "teardown":
+			dm.teardownch <- struct{}{}
+			e.add(c14call{what: "TeardownRequested", start: verif_Clock()})
+		case "update":
+			nupd++
+			dm.updatech <- c14groups[nupd]
+			e.add(c14call{what: "Update", start: verif_Clock(), group: c14groups[nupd]})
+		}
+		skip += 2
+	}
+	if skip > 0 && skip < len(sched) {
+		if k, _, v := verif_Step(sched[skip]); k == "hostnames" {
+			if v == 1 {
+				e.add(c14call{what: "HostnamesFailed", start: verif_Clock()})
+				e.hostch <- errors.New("hostname in use")
+			} else {
+				e.hostch <- nil
+			}
+			skip++
+		}
+	}
+	go func() { dm.run(); close(done) }()
 	send := func(f func() bool) {
 		deadline := time.After(time.Second)
 		for {
@@ -283,8 +312,11 @@ func c14native() {
 			}
 		}
 	}
-	for _, s := range verif_Schedule() {
+	for i, s := range sched {
 		kind, name, val := verif_Step(s)
+		if i < skip || kind == "queued" {
+			continue
+		}
 		switch kind {
 		case "op":
 			verif_Release(name, val)
